@@ -96,6 +96,20 @@ func intSpace(n int, desc bool) keyspace[int] {
 	return ks
 }
 
+// integer keys around zero: key index 2 is the zero value of the key type (the value the head sentinel's key field holds)
+func intZeroSpace(n int, desc bool) keyspace[int] {
+	ks := keyspace[int]{name: "int-around-zero", index: map[string]int{}}
+	ks.key = func(i int) int { return i - 2 }
+	for i := 1; i <= n; i++ {
+		ks.index[fmt.Sprint(ks.key(i))] = i
+	}
+	ks.cmp = ord.Int
+	if desc {
+		ks.cmp = reverse[int](ord.Int)
+	}
+	return ks
+}
+
 var words = []string{"A", "Zz", "a", "aa", "ab", "b", "ba", "bb", "c", "d", "da", "e", "f", "g", "h", "i", "j", "k", "l", "m", "n", "o", "p", "q", "z", "é", "éa", "世"}
 
 func strSpace(n int, desc bool) keyspace[string] {
@@ -399,6 +413,7 @@ func TestReplay(t *testing.T) {
 	st := &stats{}
 	nkeys = maxKey
 	replaySpace(intSpace(maxKey, desc), desc, cases, levels, out, st)
+	replaySpace(intZeroSpace(maxKey, desc), desc, cases, levels, out, st)
 	replaySpace(strSpace(maxKey, desc), desc, cases, levels, out, st)
 	replaySpace(lenSpace(maxKey, desc), desc, cases, levels, out, st)
 	out.Put(map[string]any{"t": "stats", "cases": st.Cases, "transitions": st.Transitions, "ops": st.Ops})
@@ -487,7 +502,9 @@ func TestRandom(t *testing.T) {
 		if desc {
 			order = "desc"
 		}
-		switch i % 3 {
+		switch i % 4 {
+		case 3:
+			randomSpace(intZeroSpace(nkeys, desc), order, rng, nkeys, nops, out)
 		case 0:
 			randomSpace(intSpace(nkeys, desc), order, rng, nkeys, nops, out)
 		case 1:
